@@ -30,7 +30,7 @@ Reset(e) ==
   /\ wr' = <<>> /\ hist' = {}
   /\ rd' = [r \in Readers |-> "none"]
   /\ ackLo' = [r \in Readers |-> 1] /\ ackHi' = [r \in Readers |-> 1]
-  /\ req' = [r \in Readers |-> {}] /\ pre' = [r \in Readers |-> 0]
+  /\ req' = [r \in Readers |-> {}] /\ pre' = [r \in Readers |-> 0] /\ conf' = [r \in Readers |-> TRUE]
   /\ wAct' = FALSE /\ wUntil' = 0 /\ wMay' = {} /\ wMust' = {}
   /\ viol' = {}
   /\ run' = e.run
@@ -41,7 +41,7 @@ Step ==
   /\ LET e == Rec[l] IN
      CASE e.ev = "Reset"      -> Reset(e)
        [] e.ev = "Write"      -> AbsWrite(e.pid, e.single, ToSet(e.hist), Out(e), e.done) /\ UNCHANGED run
-       [] e.ev = "Match"      -> AbsMatchR(e.r, e.kind, ToSet(e.hist), Out(e), e.done) /\ UNCHANGED run
+       [] e.ev = "Match"      -> AbsMatchR(e.r, e.kind, e.rtl, ToSet(e.hist), Out(e), e.done) /\ UNCHANGED run
        [] e.ev = "Lose"       -> AbsLose(e.r, ToSet(e.hist), Out(e), e.done) /\ UNCHANGED run
        [] e.ev = "AckNack"    -> AbsAckNack(e.r, e.base, ToSet(e.set), ToSet(e.hist), Out(e), e.done) /\ UNCHANGED run
        [] e.ev \in {"HBTick", "Repair", "RepairFrags"} -> AbsOutputs(ToSet(e.hist), Out(e), e.done) /\ UNCHANGED run
@@ -50,7 +50,7 @@ Step ==
        [] e.ev = "Wait"       -> AbsWait(e.done) /\ UNCHANGED run
        [] e.ev = "Hostile"    -> /\ hist' = (IF e.died = "" THEN ToSet(e.hist) ELSE hist)
                                  /\ viol' = viol \cup C06Viol(e)
-                                 /\ UNCHANGED <<run, relW, volW, depthLim, wr, rd, ackLo, ackHi, req, pre, wAct, wUntil, wMay, wMust>>
+                                 /\ UNCHANGED <<run, relW, volW, depthLim, wr, rd, ackLo, ackHi, req, pre, conf, wAct, wUntil, wMay, wMust>>
        [] e.ev \in {"HostileBegin", "RunDone"} -> UNCHANGED <<wabsVars, run>>
   /\ (viol' # viol /\ viol' # {}) =>
         PrintT("VIOL line=" \o ToString(l) \o " run=" \o ToString(run') \o " clauses=" \o ToString(viol' \ viol))
